@@ -2,7 +2,7 @@
 Deterministic (no randomness); every tier runs them completely."""
 import itertools
 
-from items import (Attr, Body, COMMA, Field, Gen, I, Item, MList, MNameValue, MPathM, P, Param,
+from items import (Attr, Body, COMMA, Field, Gen, I, Item, MList, MNameValue, MPathM, P, PA, Param,
                    Variant, metas_body, traits_body)
 
 PH = '::core::marker::PhantomData<T>'
@@ -410,6 +410,8 @@ def e_invalid():
         yield st([dw([MList(z, [MNameValue('crate', 'path', P('::zeroize'))])])])
         yield st([dw([MList(z, [MNameValue('crate', 'path', P('zeroize'))])])])
         yield st([dw([MList(z, [MNameValue('crate', 'str', P('a::b'))])])])
+        yield st([dw([MList(z, [MNameValue('crate', 'path', PA('a::b', 1))])])])
+        yield st([dw([MList(z, [MNameValue('crate', 'str', PA('a::b'))])])])
         yield st([dw([MList(z, [MNameValue('crate', 'strbad')])])])
         yield st([dw([MList(z, [MNameValue('crate', 'other')])])])
         yield st([dw([MList(z, [MNameValue('crate', 'path', P('a')), MNameValue('crate', 'path', P('b'))])])])
@@ -446,6 +448,11 @@ def e_invalid():
     yield en([dw(['Clone'])], [X([Body(notlist='')]), Y()])
     yield st([Attr('dw', opt('skip_inner'))])
     yield st([Attr('dw', opt(MNameValue('crate', 'path', P('foo'))))])
+    # a crate path with generic arguments cannot head the attribute path of the visited marker
+    for kindv in ('path', 'str'):
+        yield st([dw(['Clone']), Attr('dw', opt(MNameValue('crate', kindv, PA('foo'))))])
+        yield st([Attr('dw', opt(MNameValue('crate', kindv, PA('foo::bar', 1)))), dw(['Clone'])])
+        yield st([dw(['Clone']), Attr('dw', opt(MNameValue('crate', kindv, PA('::derive_where'))))])
     yield st([dw(['Clone'])], [], 'struct', 'tuple')
     yield st([dw(['Clone'])], [], 'struct', 'named')
     yield st([dw(['Clone'])], [], 'struct', 'unit')
